@@ -139,3 +139,118 @@ MUTANTS = [
     ("libpass pbkdf2: unparsable strings need no update", P, "        if not hash_info:\n            return True\n        return hash_info.rounds != self._rounds", "        if not hash_info:\n            return False\n        return hash_info.rounds != self._rounds", "refute", "PBKDF2SHAHandler.needs_update"),
     ("libpass pbkdf2: salt rendered raw", P, "            salt=ab64_encode(salt).decode(\"ascii\"),", "            salt=salt.decode(\"ascii\"),", "refute", "PBKDF2SHAHandler.hash"),
 ]
+
+
+# ---- libpass BcryptHasher / BcryptSHA256Hasher ---------------------------------------------------------------------------
+BP = "libpass/hashers/bcrypt.py"
+HASHPW = z3.Function("bcrypt.hashpw", S, S, S)          # (password, salt setting) -> '$2b$rr$' + salt22 + hash31
+CHECKPW = z3.Function("bcrypt.checkpw", S, S, z3.BoolSort())
+PREP = z3.Function("b64(hmac_sha256(key, msg))", S, S, S)  # (salt text bytes, secret)
+LAST = z3.Function("text after the last '$'", S, S)
+BINFO = {k: z3.Function(f"bcrypt_record.{k}", S, S if k != "rounds" else z3.IntSort()) for k in ("prefix", "salt", "hash", "rounds")}
+BRENDER = z3.Function("BcryptHashInfo.as_str", S, z3.IntSort(), S, S, S)
+PHCR = z3.Function("BcryptSHA256PHCV2.as_str", S, z3.IntSort(), S, S, S)  # (type, rounds, hash, salt)
+
+
+def _b_setup(it, args):
+    self = args["self"]
+    g = it.genv.vars
+    is_rec = z3.Function("is a bcrypt record", S, z3.BoolSort())
+    phc = {"ok": z3.Bool("hash is a bcrypt-sha256 PHC record"), "type": z3.String("phc.type"), "salt": z3.String("phc.salt"), "hash": z3.String("phc.hash"), "rounds": z3.Int("phc.rounds")}
+
+    def hashpw(i, a, k):
+        r = SStr(HASHPW(i.to_z3(a[0]), i.to_z3(a[1])), "bytes")
+        i.run.assume(i.all_codes_below(r.e, 128))
+        return r
+
+    def inspect_b(i, a, k):
+        h = i.to_z3(a[0])
+        if i.run.branch(is_rec(h)):
+            return SObj(i.run.fresh("bcrypt info"), fresh=True, fields={"prefix": SStr(BINFO["prefix"](h), "str"), "salt": SStr(BINFO["salt"](h), "str"), "hash": SStr(BINFO["hash"](h), "str"), "rounds": SInt(BINFO["rounds"](h))})
+        return None
+
+    def inspect_p(i, a, k):
+        if i.run.branch(phc["ok"]):
+            return SObj(i.run.fresh("phc info"), fresh=True, fields={"type": SStr(phc["type"], "str"), "salt": SStr(phc["salt"], "str"), "hash": SStr(phc["hash"], "str"), "rounds": SInt(phc["rounds"])})
+        return None
+
+    def prep(i, a, k):
+        secret = a[0] if a else k.get("secret")
+        salt = k.get("salt", a[1] if len(a) > 1 else None)
+        return SStr(PREP(_as_bytes(i, salt), _as_bytes(i, secret)), "bytes")
+
+    def new_binfo(i, a, k):
+        o = SObj(i.run.fresh("BcryptHashInfo"), fresh=True, fields=dict(k))
+        o.fields["as_str"] = SStub(lambda i2, a2, k2: SStr(BRENDER(i2.to_z3(k["prefix"]), i2.to_z3(k["rounds"], "int"), i2.to_z3(k["salt"]), i2.to_z3(k["hash"])), "str"), "as_str")
+        return o
+
+    def new_phc(i, a, k):
+        o = SObj(i.run.fresh("PHC"), fresh=True, fields=dict(k))
+        o.fields["as_str"] = SStub(lambda i2, a2, k2: SStr(PHCR(i2.to_z3(k["type"]), i2.to_z3(k["rounds"], "int"), i2.to_z3(k["hash"]), i2.to_z3(k["salt"])), "str"), "as_str")
+        i.run.ghost["phc_args"] = dict(k)
+        return o
+
+    g["bcrypt"] = SObj("bcrypt package", fields={
+        "hashpw": SStub(hashpw, "bcrypt.hashpw"),
+        "checkpw": SStub(lambda i, a, k: SBool(CHECKPW(i.to_z3(k.get("password", a[0] if a else None)), i.to_z3(k.get("hashed_password", a[1] if len(a) > 1 else None)))), "bcrypt.checkpw"),
+        "gensalt": SStub(lambda i, a, k: SStr(z3.String("generated bcrypt salt setting"), "bytes"), "bcrypt.gensalt"),
+    })
+    g["inspect_bcrypt_hash"] = SStub(inspect_b, "inspect_bcrypt_hash (C07)")
+    g["inspect_phc"] = SStub(inspect_p, "inspect_phc (C07)")
+    g["BcryptHashInfo"] = SStub(new_binfo, "BcryptHashInfo(...)")
+    g["BcryptSHA256PHCV2"] = SStub(new_phc, "BcryptSHA256PHCV2(...)")
+    g["Panic"] = __import__("pyvc.symexec", fromlist=["exc_class"]).exc_class("RuntimeError")
+    self.fields["_prepare_secret"] = SStub(prep, "_prepare_secret (HMAC-SHA256 keyed with the salt text, base64)")
+    it.run.ghost.update({"phc": phc, "is_rec": is_rec})
+    return {"phc_ok": SBool(phc["ok"]), "phc_rounds": SInt(phc["rounds"])}
+
+
+def _prep_capture(it, args):
+    """wrap _prepare_secret so that the key it was given is recorded"""
+    _b_setup(it, args)
+    self = args["self"]
+    inner = self.fields["_prepare_secret"]
+
+    def prep(i, a, k):
+        salt = k.get("salt", a[1] if len(a) > 1 else None)
+        i.run.ghost["hmac_key"] = _as_bytes(i, salt)
+        i.run.ghost["hmac_key_value"] = i.resolve(salt)
+        return inner.fn(i, a, k)
+
+    self.fields["_prepare_secret"] = SStub(prep, "_prepare_secret")
+    # salt.rsplit(b"$")[-1]: modelled by the engine's own split; the contract only needs that verify() and hash() key the HMAC alike
+    return {"phc_ok": SBool(it.run.ghost["phc"]["ok"]), "phc_rounds": SInt(it.run.ghost["phc"]["rounds"])}
+
+
+BSELF = Obj(cls=(BP, "BcryptSHA256Hasher"), fields={"_rounds": Int(4, 31), "prefixes": (b"2b", b"2a", b"2y")})
+CONTRACTS += [
+    Contract(
+        "libpass.BcryptSHA256Hasher.verify", f"{BP}::BcryptSHA256Hasher.verify",
+        params={"self": BSELF, "hash": Str(), "secret": Bytes()},
+        setup=_prep_capture,
+        ensures=[("False for anything that is not a bcrypt-sha256 record; otherwise bcrypt.checkpw(b64(HMAC-SHA256(key = the record's salt text, secret)), '$type$rounds$salt+hash' rebuilt from the record)",
+                  lambda it, env: z3.And(
+                      z3.Implies(z3.Not(it.run.ghost["phc"]["ok"]), z3.Not(it.to_zbool(it.truth(env.lookup("result"))))),
+                      z3.Implies(it.run.ghost["phc"]["ok"], it.to_zbool(it.truth(env.lookup("result"))) == CHECKPW(
+                          PREP(U8(it.run.ghost["phc"]["salt"]), _as_bytes(it, env.lookup("secret"))),
+                          U8(BRENDER(it.run.ghost["phc"]["type"], it.run.ghost["phc"]["rounds"], it.run.ghost["phc"]["salt"], it.run.ghost["phc"]["hash"]))))))],
+        descr="every string, every secret",
+    ),
+    Contract(
+        "libpass.BcryptSHA256Hasher.needs_update", f"{BP}::BcryptSHA256Hasher.needs_update",
+        params={"self": BSELF, "hash": Str()},
+        setup=_b_setup,
+        ensures=[("an update is asked exactly for foreign strings and for records whose cost differs from the configured one", "result == (not phc_ok or phc_rounds != self._rounds)")],
+    ),
+    Contract(
+        "libpass.BcryptHasher.verify", f"{BP}::BcryptHasher.verify",
+        params={"self": Obj(cls=(BP, "BcryptHasher"), fields={"_rounds": Int(4, 31), "prefix": b"2b"}), "hash": Str(), "secret": Bytes()},
+        setup=_b_setup,
+        ensures=[("False for anything that is not a bcrypt record, else bcrypt.checkpw(secret, hash)",
+                  lambda it, env: it.to_zbool(it.truth(env.lookup("result"))) == z3.And(it.run.ghost["is_rec"](it.to_z3(env.lookup("hash"))), CHECKPW(it.to_z3(env.lookup("secret")), U8(it.to_z3(env.lookup("hash"))))))],
+    ),
+]
+MUTANTS += [
+    ("libpass bcrypt-sha256: verify keys the HMAC with the digest field", BP, "            password=self._prepare_secret(secret, info.salt),", "            password=self._prepare_secret(secret, info.hash),", "refute", "BcryptSHA256Hasher.verify"),
+    ("libpass bcrypt: verify skips identification", BP, "        if not self.identify(hash):\n            return False\n        return bcrypt.checkpw(", "        return bcrypt.checkpw(", "refute", "BcryptHasher.verify"),
+]
